@@ -114,6 +114,20 @@ class NaNLike:
         return False
 
 
+class Proxy:
+    """reports the class of what it stands for, as a mock with a spec does"""
+    @property
+    def __class__(self):
+        return Plain
+
+
+class NoClass:
+    """an object whose class cannot be read"""
+    @property
+    def __class__(self):
+        raise RuntimeError('no class for you')
+
+
 class Trap:
     def __init__(self):
         self._Trapdoor = 'not private'
@@ -219,7 +233,8 @@ def obj(rng):
     return rng.choice(['Plain()', 'Plain(%d)' % rng.randint(2, 9), 'Priv()', 'Child()', 'Slotted()',
                        "WithStr('w')", 'Outer.Inner()', 'Outer()', 'MyList([1, 2])', "MyDict(a=1)",
                        'make_local_class()', 'B.LibObj()', 'Node(1)', 'object()', 'Trap()', 'EmptyBox()', 'Never()',
-                       'EqRaises()', 'EqArray()', 'EqAlways()', 'NaNLike()', 'EqRaises()', 'EqArray()'])
+                       'EqRaises()', 'EqArray()', 'EqAlways()', 'NaNLike()', 'EqRaises()', 'EqArray()', 'Proxy()',
+                       'NoClass()'])
 
 
 def exc(rng):
@@ -384,7 +399,8 @@ def gen_program(rng, depth=None, nlocals=None):
             base = 8
             params = ['a%d' % i, 'cap%d' % i]
         elif k == 'method':
-            parent = rng.choice(['', '', '(Priv)', '(Child)', '(Plain)', '(EmptyBox)', '(Never)', '(MyList)'])
+            parent = rng.choice(['', '', '(Priv)', '(Child)', '(Plain)', '(EmptyBox)', '(Never)', '(MyList)', '(Proxy)',
+                                 '(NoClass)'])
             head = ['class C%d%s:' % (i, parent), '    def m%d(self, %s):' % (i, p)]
             base = 8
             params = ['self', p]
